@@ -55,7 +55,7 @@ def verify_function(key, sources, scenario=None, prune=True):
         res.undecided_reason = f"unsupported: {e}"
     except RecursionError:
         res.undecided_reason = "engine recursion limit"
-    for a in c.ghost_at:
+    for a in list(c.ghost_at) + list(c.ghost_before):
         if a not in eng.anchors_hit and res.undecided_reason is None:
             res.undecided_reason = f"ghost anchor {a!r} not found in the function (contract out of date)"
     # declared loop contracts must all correspond to a loop
@@ -92,8 +92,7 @@ def _run(eng, c, fn, scenario):
             continue
         v = fresh_value(n, s)
         st.env[n] = v
-        if s[0] in ("ref", "list", "opq"):
-            eng.typing_facts(st, v)
+        eng.typing_facts(st, v)
     st.old = st.fork()
     st.old.old = None
     se = SpecEval(eng, st, pre_state=st.old)
@@ -155,7 +154,7 @@ def frame_obligations(eng, c, st, node):
     mods = set()
     for m in eng.expand_modifies(c.modifies):
         if m == "list":
-            mods |= {"list.len", "list.I", "list.R", "list.S"}
+            mods |= {"list.len", "list.I", "list.R", "list.S", "list.nan"}
         else:
             mods |= {m, m + "#n"}
     alloc0 = st.old.heap.alloc
